@@ -13,7 +13,16 @@ class Tag(models.Model):
     t = models.CharField(max_length=20, null=True)
 
 
+class PositiveManager(models.Manager):
+    """A second, NON-default manager with a restriction of its own (C15 host)."""
+
+    def get_queryset(self):
+        return super().get_queryset().filter(n__gt=0)
+
+
 class Parent(models.Model):
+    objects = models.Manager()
+    positive = PositiveManager()
     n = models.IntegerField(null=True)
     name = models.CharField(max_length=20, null=True)
     boss = models.ForeignKey("self", null=True, on_delete=models.SET_NULL, related_name="minions")
